@@ -83,6 +83,7 @@ static void canary_sweep(void) {
   for (h = 0; h < HB; h++) for (b = htab[h]; b; b = b->next) if (!canary_ok(b->p, b->sz)) guard("canary damaged (seen at call end)", b->id);
 }
 long rec_live_blocks(void) { return live_blocks; }
+int rec_ret_caller_buf;      /* set by a call template: the returned string lives in the caller's (guarded) buffer, not in a heap block */
 void rec_alloc_logging(int on) { alloc_log = on; }
 static void heap_forget(void) {
   int h; live_blocks = 0;
@@ -342,7 +343,8 @@ int do_call(const api_fn *f, arg_t *a, ret_t *r) {
     case RT_U: case RT_B: case RT_SZ: j_hex_u64(r->u); break;
     case RT_S: j_hex_s64(r->s); break;
     case RT_D: j_double(r->d); break;
-    case RT_STR: if (r->str) { fputs("{\"s\":", tr); j_str(r->str); fprintf(tr, ",\"blk\":%ld}", blk_id_of(r->str)); } else fputs("{\"s\":\"\",\"blk\":-2}", tr); break;
+    case RT_STR: if (r->str) { fputs("{\"s\":", tr); j_str(r->str); fprintf(tr, ",\"blk\":%ld}", rec_ret_caller_buf ? -2L : blk_id_of(r->str)); } else fputs("{\"s\":\"\",\"blk\":-2}", tr);
+      rec_ret_caller_buf = 0; break;
     }
   }
   pool_diff_emit();
@@ -382,8 +384,19 @@ size_t rec_block_size(void *p) { blk *b = p ? blk_find(p, 0) : NULL; return b ? 
    snapshotted before a call and compared after it; a changed chunk is a "gw" event (C15: only the documented globals). */
 typedef struct { unsigned char *addr; size_t size; char name[96]; unsigned char *snap; } gwchunk;
 static gwchunk *gwc; static int ngw;
+#if defined(__has_feature)
+#if __has_feature(address_sanitizer) || __has_feature(thread_sanitizer)
+#define GW_OFF 1
+#endif
+#endif
+#if defined(__SANITIZE_ADDRESS__) || defined(__SANITIZE_THREAD__)
+#define GW_OFF 1
+#endif
 void gw_load(const char *exe) {
   char path[600], line[400]; FILE *f;
+#ifdef GW_OFF
+  return;       /* sanitizer builds pad globals with red zones: the linker-map chunks are not plain memory there */
+#endif
   snprintf(path, sizeof path, "%s.gw", exe); f = fopen(path, "r"); if (!f) return;
   while (fgets(line, sizeof line, f)) { unsigned long a; long sz; char nm[200];
     if (sscanf(line, "%lx %ld %199s", &a, &sz, nm) != 3) continue;
